@@ -692,6 +692,17 @@ theorem finalStep_skips_seen (t2 : Tree) (sr : Seen × List String) (d : Nat) :
       · contradiction
       · exact hc (by simpa using hmem)
 
+/-- through the whole of `preprocess` (local store): a node the seencheck marks seen is not among the nodes that get a request -/
+theorem preTail_seen_not_requested (S : SF) (cfg : Cfg) (seen : Seen) (t2 : Tree) (d : Nat) (hq : cfg.useHQ = false)
+    (hs : cfg.useSeencheck = true) :
+    ∀ x ∈ (preTail S cfg seen t2 d).2.2.1, x ∉ (seencheck t2 (t2.atLevel d) seen).2 := by
+  intro x hx
+  unfold preTail at hx
+  split at hx
+  · simp at hx
+  · simp only [hq, Bool.false_eq_true, if_false, hs, Bool.or_true, Bool.not_true, Bool.and_false, if_true] at hx
+    exact finalStep_skips_seen t2 _ d x hx
+
 /-! ### crawl HQ as the seen-store -/
 
 def hqStep (acc : Seen × List String) (v : String) : Seen × List String :=
